@@ -402,7 +402,7 @@ def make_files(pvl, tmp, rng, tier, part, nparts):
             if reader == "default" and rng.random() < 0.5:
                 # characters that str.splitlines() takes for line boundaries
                 text = 'note3 = "one\x1ctwo\x1dthree\x1efour"\nw\x1cx = y\x1ez\n' + text
-            text = text.rstrip() + "\nEND\n"
+            text = text.rstrip() + " \nEND\n"      # (blank: the text may end in a dash)
             data = text.encode("utf-8") + bytes(rng.randrange(256) for _ in range(300))
         if kind == "non-ascii":
             text = 'note = "caf\xe9 Δv"\n' + text
